@@ -2,9 +2,39 @@
 // through the setters), shared by C01, C02, C09, C10, C13, C20.
 #pragma once
 #include "engine.h"
+#include <fcntl.h>
+#include <unistd.h>
+#include <iostream>
 #include <algorithm>
 #include <cmath>
 #include "access.h"
+
+// Discards everything written to stdout while it lives (the solver prints diagnostics for verbose > 0).
+struct StdoutSilencer {
+    int saved = -1;
+    explicit StdoutSilencer(bool on)
+    {
+        if (!on)
+            return;
+        fflush(stdout);
+        std::cout.flush();
+        saved   = dup(1);
+        int nul = open("/dev/null", O_WRONLY);
+        if (nul >= 0) {
+            dup2(nul, 1);
+            close(nul);
+        }
+    }
+    ~StdoutSilencer()
+    {
+        if (saved >= 0) {
+            std::cout.flush();
+            fflush(stdout);
+            dup2(saved, 1);
+            close(saved);
+        }
+    }
+};
 
 struct SolverCfg {
     int geometry = 0, problem = 0, alpha = 1, beta = 0;
@@ -18,6 +48,7 @@ struct SolverCfg {
     double reduction = 1.0;
     int strategy = 0; // 0 take, 1 give
     int cache_coef = 1, cache_geom = 1;
+    int verbose   = 0; // diagnostic output level (the harness discards stdout)
     int grid_kind = 0; // 0: the parametric grid; 1..5: a grid loaded from files (see gridFiles())
     int via_cli = 0; // 1: every option reaches the object through setParameters(argc, argv), as src/main.cpp does
 
@@ -26,7 +57,7 @@ struct SolverCfg {
         static const std::vector<std::string> k = {"geometry", "problem", "alpha", "beta", "nr_exp", "ntheta_exp", "aniso", "div",
                                                     "dirbc", "fmg", "fmg_its", "fmg_cycle", "extrapolation", "max_levels", "pre",
                                                     "post", "cycle", "max_its", "norm", "threads", "strategy", "cache_coef",
-                                                    "cache_geom", "via_cli", "grid_kind"};
+                                                    "cache_geom", "via_cli", "grid_kind", "verbose"};
         return k;
     }
     int* iptr(const std::string& k)
@@ -56,6 +87,7 @@ struct SolverCfg {
         if (k == "cache_geom") return &cache_geom;
         if (k == "via_cli") return &via_cli;
         if (k == "grid_kind") return &grid_kind;
+        if (k == "verbose") return &verbose;
         return nullptr;
     }
     static const std::vector<std::string>& dblKeys()
@@ -125,7 +157,7 @@ struct SolverCfg {
     }
     void applyOptions(GMGPolar& s) const
     {
-        s.verbose(0);
+        s.verbose(verbose);
         s.paraview(false);
         s.R0(R0);
         s.Rmax(Rmax);
@@ -171,6 +203,7 @@ struct SolverCfg {
                 s.file_grid_angles(f.second);
             }
         }
+        if (verbose != prev.verbose) s.verbose(verbose);
         if (R0 != prev.R0) s.R0(R0);
         if (Rmax != prev.Rmax) s.Rmax(Rmax);
         if (nr_exp != prev.nr_exp) s.nr_exp(nr_exp);
@@ -266,7 +299,7 @@ struct SolverCfg {
     std::vector<std::string> argvAll() const
     {
         auto I = [](long v) { return std::to_string(v); };
-        return {"gmgpolar", "--verbose", "0", "--paraview", "0", "--geometry", I(geometry), "--problem", I(problem), "--alpha_coeff", I(alpha),
+        return {"gmgpolar", "--verbose", I(verbose), "--paraview", "0", "--geometry", I(geometry), "--problem", I(problem), "--alpha_coeff", I(alpha),
                 "--beta_coeff", I(beta), "--kappa_eps", KVnum(kappa_eps), "--delta_e", KVnum(delta_e), "--alpha_jump", KVnum(alpha_jump),
                 "--Rmax", KVnum(Rmax), "--R0", KVnum(R0), "--nr_exp", I(nr_exp), "--ntheta_exp", I(ntheta_exp), "--anisotropic_factor", I(aniso),
                 "--divideBy2", I(div), "--write_grid_file", "0", "--load_grid_file", I(grid_kind > 0), "--file_grid_radii", grid_kind > 0 ? gridFiles().first : std::string("none"),
